@@ -10,7 +10,7 @@ NY = dict(tz='America/New_York', dstStart=26, dstEnd=5737)   # 2026-03-08 02:00 
 UTC = dict(tz='UTC', dstStart=1, dstEnd=0)
 
 INVARIANTS = ['NoOverlap', 'WellFormed', 'CreatedContainsTs', 'FiledInExactlyOne', 'InsideBucket', 'StartsOnGrid',
-              'NeverDeleteYoung', 'ForcedAtMostOldestNotLast', 'ExpiredInvisible', 'PartiallyExpiredVisible']
+              'NeverDeleteYoung', 'TickNeverDeletesYoung', 'ForcedAtMostOldestNotLast', 'ExpiredInvisible', 'PartiallyExpiredVisible']
 PROPS = ['BoundariesStable', 'OnlyGrows', 'RetentionOnlyRemovesExpired']
 
 
@@ -79,7 +79,7 @@ def run_families(c, families, binp, nontrivial_ops):
             again = c.run_harness(binp, ['-mode', 'segments', '-in', f2, '-cfg', json.dumps(hcfg)], env={'TZ': z['tz']})
             os.remove(f2)
             if not [x for x in again['violations'] if x['signature'] == v['signature']]:
-                c.inconclusive('violation %s (family %s) not reproduced on a second run' % (v['signature'], fam['name']))
+                c.unreproduced('violation %s (family %s) not reproduced on a second run' % (v['signature'], fam['name']))
             c.report(v['signature'] + ':' + z['tz'], v['detail'],
                      {'behaviour': b, 'harness': 'stor/segments', 'cfg': hcfg, 'tz': z['tz'], 'family': fam['name']})
         tot['behaviours'] += res['behaviours']
